@@ -160,7 +160,7 @@ func (c childOut) key() string {
 type item struct {
 	ins   *instrV     // an instruction
 	child *childGroup // or the code of a child
-	ctype string    // child: node type
+	ctype string      // child: node type
 	cref  *nodeRef
 	csel  int
 	pos   token.Pos
@@ -213,6 +213,9 @@ type nodeRef struct {
 	chosen string // node type once decided
 	hc     *bool
 	mat    map[string]absint.Val // materialised receivers by type
+	parent *nodeRef              // the reference whose materialisation created this one (nil: child of the receiver)
+	depth  int
+	op     string // operator of the materialised node, when it has one
 }
 
 func (n *nodeRef) ObjString() string {
